@@ -313,10 +313,12 @@ func (wd *world) afterMergeCrash(r *sim.R, sc *scenario, want *model.Store, sig 
 			both := append(append([]string(nil), old...), neu...)
 			if dbcheck.DiffRows(both, g) == "" {
 				clause = "day-holds-old-and-merged-data"
+			} else if len(g) == 0 {
+				// nothing at all is returned for a day that had data: never the effect of a leftover
+				// being read in addition (that adds rows), so it is judged before the leftover classes
+				clause = "day-data-hidden"
 			} else if strings.Contains(sig, "two directories for one day") || strings.Contains(sig, "backup directory") {
 				clause = "day-holds-old-and-merged-data" // rows with equal keys from both directories are summed
-			} else if len(g) == 0 {
-				clause = "day-data-hidden"
 			}
 			if v := rep(clause, fmt.Sprintf("iface %s day %d: query returns %d rows; before the merge the day had %d rows, the merged day has %d\nvs old: %s\nvs merged: %s\ndirectories: %v",
 				iface, d, len(g), len(old), len(neu), dbcheck.DiffRows(old, g), dbcheck.DiffRows(neu, g), dbcheck.DayDirNames(wd.fs, "dstdisk", rel, iface, d))); v != nil {
